@@ -14,6 +14,7 @@ package c14
 
 import (
 	"fmt"
+	"io"
 	"math/rand"
 	"os"
 	"path/filepath"
@@ -113,6 +114,28 @@ func runOne(c *core.Ctx, name string, wl sx.Workload, seed int64) (*outcome, err
 		r.Rec.Emit("Recovered", rec)
 		out.Copies++
 	}
+	// a backup that FAILS half way (destination refuses the second file) must
+	// leave the source untouched as well
+	func() {
+		defer func() {
+			if p := recover(); p != nil {
+				c.Violation("c14/source-broken-after-failed-copy", fmt.Sprintf("%s: source index panicked after a failed CopyTo: %v", name, p), map[string]any{"scenario": name})
+			}
+		}()
+		fd := &failingDir{base: filepath.Join(base, "copy-fail"), failAt: 2}
+		if err := r.Idx.(bleve.IndexCopyable).CopyTo(fd); err == nil {
+			return // nothing failed (fewer than 2 files): not this scenario
+		}
+		for k := 0; k < 3; k++ {
+			if _, err := sx.SearchContent(r.Idx); err != nil {
+				c.Violation("c14/source-broken-after-failed-copy", fmt.Sprintf("%s: search on the source failed after a failed CopyTo: %v", name, err), map[string]any{"scenario": name})
+				return
+			}
+		}
+		if _, err := r.Submit(sx.BatchSpec{W: 1, Puts: []string{"a"}, Dels: []string{}}); err != nil {
+			c.Violation("c14/source-broken-after-failed-copy", fmt.Sprintf("%s: batch on the source failed after a failed CopyTo: %v", name, err), map[string]any{"scenario": name})
+		}
+	}()
 	// the source is unaffected
 	if cont, err := sx.ObserveContent(r.Idx); err == nil {
 		r.Rec.Emit("SourceAfter", map[string]any{"docs": cont.Docs, "seq": cont.Seq, "count": cont.Count})
@@ -126,6 +149,30 @@ func runOne(c *core.Ctx, name string, wl sx.Workload, seed int64) (*outcome, err
 	}
 	out.Records = sx.CrashRecords(r.Rec.Events())
 	return out, nil
+}
+
+// failingDir is a backup destination whose failAt-th file cannot be created
+// (disk full, permission, ...).
+type failingDir struct {
+	base   string
+	failAt int
+	n      int
+	mu     sync.Mutex
+}
+
+func (d *failingDir) GetWriter(path string) (io.WriteCloser, error) {
+	d.mu.Lock()
+	d.n++
+	n := d.n
+	d.mu.Unlock()
+	if n >= d.failAt {
+		return nil, fmt.Errorf("no space left on device (injected)")
+	}
+	full := filepath.Join(d.base, path)
+	if err := os.MkdirAll(filepath.Dir(full), 0o700); err != nil {
+		return nil, err
+	}
+	return os.OpenFile(full, os.O_RDWR|os.O_CREATE, 0o600)
 }
 
 func run(c *core.Ctx) error {
